@@ -129,6 +129,10 @@ class Module:
             self.tree = ast.parse(source, filename=relpath)
         except SyntaxError as exc:  # pragma: no cover
             raise AnalysisError(f"syntax error in {relpath}: {exc}") from exc
+        # make helpers / constants / locals that the reference tree does not
+        # have transparent (see sa/normalize.py); identity on the reference tree
+        from .normalize import normalize_module
+        self.normalized = normalize_module(self.tree, name)
         set_parents(self.tree)
         self.functions = {}
         self.classes = {}
